@@ -355,10 +355,29 @@ inline std::string make_char_constant(
     return fmt::format("'{}'", constant_value);
 }
 
-inline std::string numeric_literal_to_value(
-    const std::string_view value, const std::string_view type)
+// Removes redundant leading zeros (after the optional sign), otherwise C++
+// treats a literal like `010` as an octal one
+inline std::string strip_leading_zeros(const std::string_view value)
 {
-    assert(!value.empty());
+    const auto has_sign =
+        !value.empty() && ((value[0] == '-') || (value[0] == '+'));
+    std::size_t first = has_sign ? 1 : 0;
+    while((first + 1 < value.size()) && (value[first] == '0')
+          && std::isdigit(static_cast<unsigned char>(value[first + 1])))
+    {
+        first++;
+    }
+
+    std::string res{value.substr(0, has_sign ? 1 : 0)};
+    res += value.substr(first);
+    return res;
+}
+
+inline std::string numeric_literal_to_value(
+    const std::string_view raw_value, const std::string_view type)
+{
+    assert(!raw_value.empty());
+    const auto value = strip_leading_zeros(raw_value);
 
     if((type == "float") || (type == "double"))
     {
